@@ -108,6 +108,8 @@ func main() {
 		{"delegate-of-root", delegOfRoot.Cert, delegOfRoot.Key, true, false},
 		{"client-own-certificate", nil, nil, true, false},
 		{"client-own-certificate-not-embedded", nil, nil, false, false},
+		// signed and embedded by the client certificate, but the ResponderID field names the issuer
+		{"client-own-certificate-claiming-the-issuers-responder-id", nil, nil, true, false},
 		{"stranger-imitating-issuer-name-and-keyid-embedded", imitator.Cert, imitator.Key, true, false},
 		{"stranger-imitating-issuer-name-and-keyid", imitator.Cert, imitator.Key, false, false},
 		{"stranger-imitating-issuer-with-ocspsigning-embedded", imitatorEKU.Cert, imitatorEKU.Key, true, false},
@@ -125,6 +127,11 @@ func main() {
 		}
 		if sg.Embed {
 			tmpl.Certificate = cert
+		}
+		if strings.HasSuffix(sg.Name, "claiming-the-issuers-responder-id") {
+			// CreateResponse takes the ResponderID (byName) from the responder certificate it is given and
+			// never checks that the key belongs to it
+			cert = w.Int.Cert
 		}
 		b, err := ocsp.CreateResponse(w.Int.Cert, cert, tmpl, key)
 		if err != nil {
